@@ -77,6 +77,8 @@ func runC10(r *Run) {
 	r.RuleDoc("C10.R4", "hash-key chain between constructor and comparison (template hash, node hash)")
 	r.RuleDoc("C10.R5", "sources the constructor consults with higher precedence than the setting are consulted by the comparison's setting check")
 	r.RuleDoc("C10.R5b", "constructor and comparison agree on WHEN the node annotation overrides: for every result combination the shared lookup can return, exactly one of {constructor applies the annotation, comparison applies the setting check} holds")
+	r.RuleDoc("C10.R7", "every container is resolved: a loop over the template's containers in the constructor's helpers is never left early on a path that has not applied (or collected) the current container's override")
+	r.RuleDoc("C10.R8", "writer and reader build the node-annotation key from the same things: at every call of the functions that format the resources-annotation key, each key component has the same role (replica-set/pod namespace, ExtendedDaemonSet name, container name)")
 	r.RuleDoc("C10.R6", "hash determinism: no digest feed inside a range-over-map loop; map-collected data reaches the digest only through a slice sorted before the feeding loop")
 	r.Floor("C10.R1", 9)
 	r.Floor("C10.R2", 6)
@@ -85,6 +87,8 @@ func runC10(r *Run) {
 	r.Floor("C10.R5", 3)
 	r.Floor("C10.R5b", 2)
 	r.Floor("C10.R6", 4)
+	r.Floor("C10.R7", 1)
+	r.Floor("C10.R8", 3)
 	r.NotCovered("value-level round trip for every template / annotation / setting (e.g. that overlaying a setting onto a pod built from it is the identity, that DeepEqual sees no defaulted fields); that the node pointer of a creation candidate is non-nil (C01); that Parameters.EDSName equals the replica set's extendeddaemonset-name label; affinity terms that conflict with the node name; the error of overwriteResourcesFromNode being replaced by SetControllerReference's result")
 
 	c := c10Anchor(r)
@@ -99,6 +103,8 @@ func runC10(r *Run) {
 	c.sources()
 	c.overrideAgreement()
 	c10HashDeterminism(r)
+	c.containerLoops()
+	c.keyRoles()
 }
 
 // ---------------------------------------------------------------------------------------------
@@ -3263,4 +3269,420 @@ func c10ProducerGuards(prog *Prog, fn *ssa.Function, val ssa.Value, takesNode fu
 		dnf = append(dnf, d2...)
 	}
 	return F, dnf, mixed, true
+}
+
+// ---------------------------------------------------------------------------------------------
+// R7: every container is resolved
+
+// containerLoops: in the functions the constructor calls, a loop that walks a []corev1.Container and
+// applies / looks up / collects a per-container override may be left before its end only on paths
+// that have done that work for the current container (a search loop that stops after the match).
+// Leaving it on another path (an error, a missing entry) abandons the containers that follow.
+func (c *c10Ctx) containerLoops() {
+	r := c.r
+	isContainers := func(v ssa.Value) bool {
+		sl, ok := v.Type().Underlying().(*types.Slice)
+		return ok && typeName(sl.Elem()) == pkgCoreV1+".Container"
+	}
+	resPath := []string{"Spec", "Containers", "[]", "Resources"}
+	n := 0
+	for _, fn := range sortedFuncs(r.Prog.reachableFuncs(c.ctor)) {
+		if !hasLoop(fn) {
+			continue
+		}
+		k := newKeyer(fn)
+		seenH := map[*ssa.BasicBlock]bool{}
+		for _, b := range fn.Blocks {
+			for _, in := range b.Instrs {
+				ia, ok := in.(*ssa.IndexAddr)
+				if !ok || !isContainers(ia.X) {
+					continue
+				}
+				H, _ := indexLoopOver(k, ia.Index, ia.X)
+				if H == nil || seenH[H] {
+					continue
+				}
+				seenH[H] = true
+				loop := loopBlocks(H)
+				// the work done per container: stores of container resources, appends of non-error records
+				isEvent := func(x ssa.Instruction) bool {
+					switch y := x.(type) {
+					case *ssa.Store:
+						_, p := deepPath(y.Addr)
+						return len(p) >= 2 && p[len(p)-1] == "Resources" && p[len(p)-2] == "[]" || hasPrefixPath(p, resPath)
+					case *ssa.Call:
+						if _, isAp := isBuiltinCall(y, "append"); isAp {
+							if sl, isSl := y.Type().Underlying().(*types.Slice); isSl {
+								return !types.Identical(sl.Elem(), types.Universe.Lookup("error").Type())
+							}
+						}
+					}
+					return false
+				}
+				relevant := false
+				events := map[*ssa.BasicBlock]bool{}
+				for lb := range loop {
+					for _, li := range lb.Instrs {
+						if isEvent(li) {
+							events[lb] = true
+							relevant = true
+						}
+						if call, isCall := li.(*ssa.Call); isCall {
+							if cal := staticCallee(&call.Call); cal != nil && r.Prog.IsRuleSite(cal) {
+								for _, a := range call.Call.Args {
+									if isPtrToNamed(a.Type(), pkgCoreV1, "Node") {
+										relevant = true
+									}
+								}
+							}
+						}
+					}
+				}
+				// a search loop does its work in the block it breaks to: count that block's events too
+				exitEvent := map[*ssa.BasicBlock]bool{}
+				for lb := range loop {
+					for _, t := range lb.Succs {
+						if loop[t] || lb == H {
+							continue
+						}
+						for _, li := range t.Instrs {
+							if isEvent(li) {
+								exitEvent[t] = true
+								relevant = true
+							}
+						}
+					}
+				}
+				if !relevant {
+					continue
+				}
+				n++
+				body := H.Succs[0]
+				if !loop[body] {
+					body = H.Succs[1]
+				}
+				okL, whyL := true, ""
+				for lb := range loop {
+					if lb == H {
+						continue
+					}
+					for _, t := range lb.Succs {
+						if loop[t] {
+							continue
+						}
+						// every path body → lb passes an event block
+						paths, okP := enumPaths(fn, k, body, func(x *ssa.BasicBlock) bool { return x == lb }, func(x *ssa.BasicBlock) bool { return x == H || x == lb || !loop[x] }, 2000)
+						if !okP {
+							okL, whyL = false, "undecided: path cap exceeded"
+							continue
+						}
+						for _, p := range paths {
+							done := exitEvent[t]
+							for _, pb := range p.Blocks {
+								if events[pb] {
+									done = true
+								}
+							}
+							if !done {
+								okL = false
+								whyL = fmt.Sprintf("the loop is left at %s on a path [%s] that has not applied the current container's override: the containers after it keep the setting/template resources although the node annotates them", r.Prog.Pos(instrPos(lb.Instrs[len(lb.Instrs)-1])), shortFacts(p))
+							}
+						}
+					}
+				}
+				r.Check("C10.R7", fmt.Sprintf("container loop %d", len(seenH)), r.Prog.Pos(ia.Pos()), shortFunc(fn),
+					"the loop over the template's containers is left early only after the current container's override was applied or collected", okL, whyL)
+			}
+		}
+	}
+	if n == 0 {
+		r.Check("C10.R7", "container loops", r.Prog.Pos(c.ctor.Pos()), shortFunc(c.ctor), "the constructor's helpers resolve the resources container by container", false, "no loop over the template's containers found")
+	}
+}
+
+// ---------------------------------------------------------------------------------------------
+// R8: roles of the annotation-key components
+
+// c10Role describes what a string stands for: "namespace" (of a replica set or of a pod created
+// from it), "label:<key>" (of a replica set; a pod's label counts as the replica set's when R1 shows
+// it is copied), "edsname", "container", or "other:<what>". Values are followed through parameters
+// (every call site), struct fields filled by composite literals, and helper results.
+func (c *c10Ctx) roleOf(v ssa.Value, depth int, seen map[ssa.Value]bool) map[string]bool {
+	out := map[string]bool{}
+	add := func(m map[string]bool) {
+		for k := range m {
+			out[k] = true
+		}
+	}
+	if depth > 6 || seen[v] {
+		return out
+	}
+	seen[v] = true
+	r := c.r
+	kindOf := func(x ssa.Value) string {
+		t := x.Type()
+		switch {
+		case isPtrToNamed(t, pkgAPI, "ExtendedDaemonSetReplicaSet"):
+			return "rs"
+		case isPtrToNamed(t, pkgCoreV1, "Pod"):
+			return "pod"
+		case isPtrToNamed(t, pkgAPI, "ExtendedDaemonSet"):
+			return "eds"
+		}
+		if strings.HasSuffix(typeName(t), pkgCoreV1+".Container") || typeName(t) == pkgCoreV1+".Container" {
+			return "container"
+		}
+		return "other:" + typeName(t)
+	}
+	v = unwrap(v)
+	for _, o := range origins(v) {
+		switch x := o.(type) {
+		case *ssa.Parameter:
+			sites := r.Prog.callSitesAll(x.Parent())
+			if len(sites) == 0 {
+				out["other:parameter "+x.Name()+" of "+shortFunc(x.Parent())] = true
+			}
+			for _, s := range sites {
+				if i := paramIndex(x); i < len(s.Common().Args) {
+					add(c.roleOf(s.Common().Args[i], depth+1, seen))
+				}
+			}
+		case *ssa.Lookup, *ssa.Extract:
+			var l *ssa.Lookup
+			if ex, isE := x.(*ssa.Extract); isE {
+				l, _ = ex.Tuple.(*ssa.Lookup)
+				if l == nil || ex.Index != 0 {
+					if call, isCall := ex.Tuple.(*ssa.Call); isCall {
+						if cal := staticCallee(&call.Call); cal != nil && r.Prog.IsRuleSite(cal) {
+							if rv := singleReturn(cal, ex.Index); rv != nil {
+								add(c.roleOf(rv, depth+1, seen))
+								continue
+							}
+						}
+					}
+					out["other:"+o.String()] = true
+					continue
+				}
+			} else {
+				l = x.(*ssa.Lookup)
+			}
+			key, isC := constString(l.Index)
+			root, p := accessPath(l.X)
+			if gc, isCall := unwrap(l.X).(*ssa.Call); isCall && strings.HasSuffix(calleeName(&gc.Call), ".GetLabels") && len(gc.Call.Args) == 1 {
+				root, p = accessPath(gc.Call.Args[0])
+				p = append(p, "Labels")
+			}
+			if !isC || len(p) == 0 || p[len(p)-1] != "Labels" {
+				out["other:"+o.String()] = true
+				continue
+			}
+			switch kindOf(root) {
+			case "rs":
+				out["label:"+key] = true
+			case "pod":
+				if key == c.edsKey { // R1: the pod's label is the replica set's
+					out["label:"+key] = true
+				} else {
+					out["podlabel:"+key] = true
+				}
+			default:
+				out["other:label "+key+" of "+kindOf(root)] = true
+			}
+		case *ssa.Call:
+			n := calleeName(&x.Call)
+			if (strings.HasSuffix(n, ".GetNamespace") || strings.HasSuffix(n, ".GetName")) && len(x.Call.Args) == 1 {
+				root, _ := accessPath(x.Call.Args[0])
+				what := "name"
+				if strings.HasSuffix(n, ".GetNamespace") {
+					what = "namespace"
+				}
+				out[c10FieldRole(kindOf(root), what)] = true
+				continue
+			}
+			if cal := staticCallee(&x.Call); cal != nil && r.Prog.IsRuleSite(cal) {
+				if rv := singleReturn(cal, 0); rv != nil {
+					add(c.roleOf(rv, depth+1, seen))
+					continue
+				}
+			}
+			out["other:"+n] = true
+		case *ssa.UnOp:
+			root, p := accessPathThroughCopies(x)
+			sp := stripMeta(p)
+			switch {
+			case len(sp) == 1 && (sp[0] == "Name" || sp[0] == "Namespace"):
+				out[c10FieldRole(kindOf(root), strings.ToLower(sp[0]))] = true
+			case len(sp) >= 1:
+				// a field of a configuration struct: what is stored into that field anywhere in the repository
+				fa, _ := x.X.(*ssa.FieldAddr)
+				if fa == nil {
+					out["other:"+o.String()] = true
+					continue
+				}
+				owner, fname := typeName(fa.X.Type()), fieldName(fa)
+				found := false
+				for _, f := range r.Prog.RepoFuncs() {
+					for _, b := range f.Blocks {
+						for _, in := range b.Instrs {
+							st, isSt := in.(*ssa.Store)
+							if !isSt {
+								continue
+							}
+							if fa2, isFA := st.Addr.(*ssa.FieldAddr); isFA && fieldName(fa2) == fname && typeName(fa2.X.Type()) == owner {
+								found = true
+								add(c.roleOf(st.Val, depth+1, seen))
+							}
+						}
+					}
+				}
+				if !found {
+					out["other:field "+fname+" of "+owner] = true
+				}
+			default:
+				out["other:"+o.String()] = true
+			}
+		case *ssa.Const:
+			out["const"] = true
+		default:
+			out["other:"+o.String()] = true
+		}
+	}
+	return out
+}
+
+func c10FieldRole(kind, what string) string {
+	switch {
+	case what == "namespace" && (kind == "rs" || kind == "pod"):
+		return "namespace"
+	case what == "name" && kind == "eds":
+		return "edsname"
+	case what == "name" && kind == "container":
+		return "container"
+	}
+	return "other:" + what + " of " + kind
+}
+
+func (c *c10Ctx) keyRoles() {
+	r := c.r
+	format, ok := r.Prog.constStr(pkgAPI, "ExtendedDaemonSetRessourceNodeAnnotationKey")
+	if !ok {
+		r.Fatal("anchor constant %s.ExtendedDaemonSetRessourceNodeAnnotationKey not found", pkgAPI)
+		return
+	}
+	// the replica set's extendeddaemonset-name label is the ExtendedDaemonSet's name (replica-set constructor)
+	edsLabelIsName := false
+	for _, fn := range r.Prog.RepoFuncs() {
+		for _, b := range fn.Blocks {
+			for _, in := range b.Instrs {
+				mu, isMU := in.(*ssa.MapUpdate)
+				if !isMU {
+					continue
+				}
+				if k, isC := constString(mu.Key); !isC || k != c.edsKey {
+					continue
+				}
+				if _, isMM := mu.Map.(*ssa.MakeMap); !isMM {
+					continue
+				}
+				if nameOf(func(x ssa.Value) bool { return isPtrToNamed(x.Type(), pkgAPI, "ExtendedDaemonSet") })(mu.Value) {
+					// the map becomes the Labels of a replica set literal
+					for _, rr := range refs(mu.Map) {
+						if st, isSt := rr.(*ssa.Store); isSt && st.Val == mu.Map {
+							root, p := accessPath(st.Addr)
+							if len(p) > 0 && p[len(p)-1] == "Labels" && isPtrToNamed(root.Type(), pkgAPI, "ExtendedDaemonSetReplicaSet") {
+								edsLabelIsName = true
+							}
+						}
+					}
+				}
+			}
+		}
+	}
+	canon := func(role string) string {
+		if role == "edsname" && edsLabelIsName {
+			return "label:" + c.edsKey
+		}
+		return role
+	}
+	type use struct {
+		roles map[string]bool
+		where string
+	}
+	byPos := map[int][]use{}
+	nFormat := 0
+	for _, fn := range r.Prog.RepoFuncs() {
+		for _, ci := range callsIn(fn) {
+			call, isCall := ci.(*ssa.Call)
+			if !isCall || calleeName(&call.Call) != "fmt.Sprintf" || len(call.Call.Args) != 2 {
+				continue
+			}
+			if f, isC := constString(call.Call.Args[0]); !isC || f != format {
+				continue
+			}
+			nFormat++
+			arr := sliceLit(call.Call.Args[1])
+			if arr == nil {
+				r.Undecided("C10.R8", "key format arguments", r.Prog.Pos(call.Pos()), shortFunc(fn), "the arguments of the key format are not a literal list")
+				continue
+			}
+			els, okE := litElems(arr)
+			if !okE {
+				r.Undecided("C10.R8", "key format arguments", r.Prog.Pos(call.Pos()), shortFunc(fn), "the arguments of the key format are not a literal list")
+				continue
+			}
+			for i, e := range els {
+				if e.val == nil {
+					continue
+				}
+				roles := c.roleOf(e.val, 0, map[ssa.Value]bool{})
+				cr := map[string]bool{}
+				for k := range roles {
+					cr[canon(k)] = true
+				}
+				byPos[i] = append(byPos[i], use{cr, shortFunc(fn)})
+			}
+		}
+	}
+	if nFormat < 2 {
+		r.Check("C10.R8", "key format uses", r.Prog.Pos(c.ctor.Pos()), shortFunc(c.ctor), "the resources-annotation key is formatted by the lookup and by the hash function", false, fmt.Sprintf("%d uses of the key format found", nFormat))
+		return
+	}
+	var poss []int
+	for i := range byPos {
+		poss = append(poss, i)
+	}
+	sort.Ints(poss)
+	names := []string{"namespace component", "ExtendedDaemonSet-name component", "container component"}
+	for _, i := range poss {
+		all := map[string]bool{}
+		var ds []string
+		for _, u := range byPos[i] {
+			var ks []string
+			for k := range u.roles {
+				if k != "const" {
+					all[k] = true
+				}
+				ks = append(ks, k)
+			}
+			sort.Strings(ks)
+			ds = append(ds, u.where+": {"+strings.Join(ks, ", ")+"}")
+		}
+		label := fmt.Sprintf("component %d", i)
+		if i < len(names) {
+			label = names[i]
+		}
+		okR := len(all) <= 1
+		for k := range all {
+			if strings.HasPrefix(k, "other:") || strings.HasPrefix(k, "podlabel:") {
+				okR = false
+			}
+		}
+		sort.Strings(ds)
+		detail := strings.Join(ds, "; ")
+		if len(detail) > 600 {
+			detail = detail[:600] + "…"
+		}
+		r.Check("C10.R8", "key "+label, r.Prog.Pos(c.ctor.Pos()), shortFunc(c.ctor),
+			"over all call chains, this component of the node resources-annotation key is always the same thing (so the comparison looks up and hashes the annotations the constructor applied)", okR, detail)
+	}
 }
